@@ -2,6 +2,8 @@
 
 package websocket
 
+import "io"
+
 // RFC 6455 section 5.2 (base framing protocol), written from the RFC's figure and
 // field descriptions, not from frame.go.
 //
@@ -94,4 +96,37 @@ func specDecLen(b1, e0, e1, e2, e3, e4, e5, e6, e7 byte) int64 {
 
 func specDecKey(k0, k1, k2, k3 byte) uint32 {
 	return uint32(k0) | uint32(k1)<<8 | uint32(k2)<<16 | uint32(k3)<<24
+}
+
+// specDecoded: h is the decoding of the header that starts at stream position p of r.
+func specDecoded(r io.Reader, p int, h header) bool {
+	b0 := rdin(r, p)
+	b1 := rdin(r, p+1)
+	ext := specDecExt(b1)
+	if h.fin != (b0&0x80 != 0) || h.rsv1 != (b0&0x40 != 0) || h.rsv2 != (b0&0x20 != 0) || h.rsv3 != (b0&0x10 != 0) {
+		return false
+	}
+	if h.opcode != opcode(b0&0x0f) {
+		return false
+	}
+	if h.masked != (b1&0x80 != 0) {
+		return false
+	}
+	if h.payloadLength != specDecLen(b1, rdin(r, p+2), rdin(r, p+3), rdin(r, p+4), rdin(r, p+5), rdin(r, p+6), rdin(r, p+7), rdin(r, p+8), rdin(r, p+9)) {
+		return false
+	}
+	if h.masked {
+		return h.maskKey == specDecKey(rdin(r, p+2+ext), rdin(r, p+3+ext), rdin(r, p+4+ext), rdin(r, p+5+ext))
+	}
+	return h.maskKey == 0
+}
+
+// specDecodedLen: number of header bytes consumed.
+func specDecodedLen(r io.Reader, p int) int {
+	b1 := rdin(r, p+1)
+	n := 2 + specDecExt(b1)
+	if b1&0x80 != 0 {
+		n += 4
+	}
+	return n
 }
